@@ -216,6 +216,55 @@ def t_sel_linked():
     return g, dict(sel=[c1, c2, c3])
 
 
+def t_sel_linked_nested():
+    """two LINKED choices under one option of a first choice (the second becomes forced, at a non-zero index too), and a
+    further choice under one option of the forced one (inactive in most combinations of the same scenario)"""
+    B, N, CN, G, DV, M, CCT = _imp()
+    g = B()
+    n = {k: N(k) for k in ['root', 'o0', 'o1', 'o2', 'o3', 't0', 't1', 't2', 'a0', 'a1', 'a2', 'b0', 'b1', 'b2', 'd0', 'd1']}
+    g.add_edges([(n['root'], n['o0']), (n['t1'], n['o1']), (n['t1'], n['o2']), (n['b0'], n['o3'])])
+    c0 = g.add_selection_choice('C0', n['o0'], [n['t0'], n['t1'], n['t2']])
+    c1 = g.add_selection_choice('C1', n['o1'], [n['a0'], n['a1'], n['a2']])
+    c2 = g.add_selection_choice('C2', n['o2'], [n['b0'], n['b1'], n['b2']])
+    c3 = g.add_selection_choice('C3', n['o3'], [n['d0'], n['d1']])
+    g = g.set_start_nodes({n['root']})
+    g = g.constrain_choices(CCT.LINKED, [c1, c2])
+    return g, dict(sel=[c0, c1, c2, c3])
+
+
+def t_sel_linked_incompat():
+    """C1 and C2 (under option q of C1) LINKED, C3 under option p of C1, and an incompatibility between an option of C2
+    and one of C3: one merged scenario whose choices are not in index order, with a forced choice"""
+    B, N, CN, G, DV, M, CCT = _imp()
+    g = B()
+    n = {k: N(k) for k in ['root', 'o0', 'o1', 'o2', 'o3', 'a', 'b', 'p', 'q', 'r', 'x', 'y', 'z', 'u', 'v', 'w']}
+    g.add_edges([(n['root'], n['o0']), (n['a'], n['o1']), (n['q'], n['o2']), (n['p'], n['o3'])])
+    g.add_incompatibility_constraint([n['x'], n['w']])
+    c0 = g.add_selection_choice('C0', n['o0'], [n['a'], n['b']])
+    c1 = g.add_selection_choice('C1', n['o1'], [n['p'], n['q'], n['r']])
+    c2 = g.add_selection_choice('C2', n['o2'], [n['x'], n['y'], n['z']])
+    c3 = g.add_selection_choice('C3', n['o3'], [n['u'], n['v'], n['w']])
+    g = g.set_start_nodes({n['root']})
+    g = g.constrain_choices(CCT.LINKED, [c1, c2])
+    return g, dict(sel=[c0, c1, c2, c3])
+
+
+def t_conn_two_exclusive():
+    """two connection choices of which exactly one exists, depending on a selection choice"""
+    B, N, CN, *_ = _imp()
+    g = B()
+    r, o1 = N('R'), N('O1')
+    a = [N('A'), N('B')]
+    s1, s2 = CN('S1', deg_list=[1]), CN('S2', deg_list=[1])
+    t1 = [CN(f'T1{c}', deg_list=[0, 1]) for c in 'ab']
+    t2 = [CN(f'T2{c}', deg_list=[0, 1]) for c in 'ab']
+    g.add_edges([(r, o1), (a[0], s1), (a[1], s2)]+[(r, t) for t in t1+t2])
+    c1 = g.add_selection_choice('C1', o1, a)
+    k1 = g.add_connection_choice('K1', [s1], t1)
+    k2 = g.add_connection_choice('K2', [s2], t2)
+    return g.set_start_nodes({r}), dict(sel=[c1], conn=[k1, k2], src=[s1, s2], tgt=t1+t2)
+
+
 def t_sel_forced_linked():
     """two linked selection choices (the second one is forced: it gets no design variable) followed by independent ones;
     the index of a design variable then differs from the index of its selection choice"""
@@ -666,10 +715,10 @@ def t_conn_dv():
 
 TEMPLATES = {
     'two_indep': t_two_indep, 'nested': t_nested, 'nested3': t_nested3, 'incompat': t_incompat, 'incompat3': t_incompat3, 'shared_option': t_shared_option, 'forced': t_forced,
-    'dv': t_dv, 'dv_single': t_dv_single, 'dv_or_existence': t_dv_or_existence, 'dv_linked': t_dv_linked, 'dv_linked_late': t_dv_linked_late, 'dv_linked_interleaved': t_dv_linked_interleaved, 'dv_or_direct': t_dv_or_direct, 'dv_same_name': t_dv_same_name, 'dv_linked3_cond': t_dv_linked3_cond, 'sel_linked': t_sel_linked, 'sel_forced_linked': t_sel_forced_linked,
+    'dv': t_dv, 'dv_single': t_dv_single, 'dv_or_existence': t_dv_or_existence, 'dv_linked': t_dv_linked, 'dv_linked_late': t_dv_linked_late, 'dv_linked_interleaved': t_dv_linked_interleaved, 'dv_or_direct': t_dv_or_direct, 'dv_same_name': t_dv_same_name, 'dv_linked3_cond': t_dv_linked3_cond, 'sel_linked': t_sel_linked, 'sel_forced_linked': t_sel_forced_linked, 'sel_linked_nested': t_sel_linked_nested, 'sel_linked_incompat': t_sel_linked_incompat,
     'conn_simple': t_conn_simple, 'conn_cond': t_conn_cond, 'conn_opt_src': t_conn_opt_src,
     'conn_infeasible_scenario': t_conn_infeasible_scenario, 'conn_infeasible_dv': t_conn_infeasible_dv, 'conn_rows_eq_combs': t_conn_rows_eq_combs, 'conn_cond_choice_dv': t_conn_cond_choice_dv, 'conn_parallel_absent': t_conn_parallel_absent, 'conn_group': t_conn_group,
-    'conn_group_finite': t_conn_group_finite, 'conn_group_open': t_conn_group_open, 'conn_group_open2': t_conn_group_open2, 'conn_excl': t_conn_excl, 'conn_two': t_conn_two, 'conn_dv': t_conn_dv,
+    'conn_group_finite': t_conn_group_finite, 'conn_group_open': t_conn_group_open, 'conn_group_open2': t_conn_group_open2, 'conn_excl': t_conn_excl, 'conn_two': t_conn_two, 'conn_two_exclusive': t_conn_two_exclusive, 'conn_dv': t_conn_dv,
     'conn_excl_shift': t_conn_excl_shift, 'conn_two_infeasible': t_conn_two_infeasible,
     'conn_group_no_counterpart': t_conn_group_no_counterpart, 'conn_cond_choice': t_conn_cond_choice,
     'conn_group_tgt': t_conn_group_tgt, 'conn_group_excl': t_conn_group_excl, 'conn_group3': t_conn_group3, 'conn_chain': t_conn_chain,
